@@ -274,13 +274,16 @@ package gocql
 //@   may_soft_panic
 //@   ensures !soft_panic() ==> len(f.buf) <= old(len(f.buf)) - 4 && base(f.buf) == old(base(f.buf))
 
+// bind metadata: one column specification per bind marker (tuple markers are not flattened, a
+// response without specifications is rejected) - executeQuery/executeBatch index columns by value position
 //@ func (f *framer) parsePreparedMetadata
-//@   props C04 C05
+//@   props C04 C05 C14
 //@   may_soft_panic
 //@   alloc_bound len(f.buf)
+//@   ensures !soft_panic() ==> result.actualColCount == len(result.columns) && result.actualColCount >= 0
 //@   loop 0: invariant 0 <= i && len(pkeys) == pkeyCount
-//@   loop 1: invariant 0 <= i && len(cols) == meta.colCount && meta.colCount < 1000
-//@   loop 2: invariant 0 <= i
+//@   loop 1: invariant 0 <= i && i <= meta.colCount && len(cols) == meta.colCount && meta.colCount < 1000 && meta.colCount >= 0
+//@   loop 2: invariant 0 <= i && i <= meta.colCount && len(cols) == i && meta.colCount >= 1000
 
 //@ func (f *framer) parseResultMetadata
 //@   props C04 C05
@@ -305,6 +308,7 @@ package gocql
 //@   requires f.header != nil
 //@   may_soft_panic
 //@   ensures !soft_panic() ==> typeis(result, *resultPreparedFrame) && unbox(result, *resultPreparedFrame) != nil
+//@   ensures[C14] !soft_panic() ==> unbox(result, *resultPreparedFrame).reqMeta.actualColCount == len(unbox(result, *resultPreparedFrame).reqMeta.columns)
 
 //@ func (f *framer) parseResultSchemaChange
 //@   props C04 C05
@@ -1528,6 +1532,7 @@ package gocql
 //@   ensures ring_wf(r)
 //@   modifies r.hosts, r.hostIPToUUID, r.hostList, r.hosts[*], r.hostIPToUUID[*]
 //@   ensures (same(r.hosts, old(r.hosts)) || fresh(r.hosts)) && (same(r.hostIPToUUID, old(r.hostIPToUUID)) || fresh(r.hostIPToUUID))
+//@   ensures same(r.hostList, old(r.hostList)) || fresh(r.hostList)
 //@   requires validhost(host)
 //@   ensures result1 == old(haskey(r.hosts, host.hostId))
 //@   ensures result1 ==> result0 == old(r.hosts[host.hostId]) && map_unchanged_except(r.hosts) && map_unchanged_except(r.hostIPToUUID) && same(r.hostList, old(r.hostList))
@@ -1546,6 +1551,7 @@ package gocql
 //@   requires ring_wf(r)
 //@   ensures ring_wf(r)
 //@   ensures (same(r.hosts, old(r.hosts)) || fresh(r.hosts)) && (same(r.hostIPToUUID, old(r.hostIPToUUID)) || fresh(r.hostIPToUUID))
+//@   ensures same(r.hostList, old(r.hostList)) || fresh(r.hostList)
 //@   ensures result == old(haskey(r.hosts, hostID))
 //@   ensures r.hosts != nil && r.hostIPToUUID != nil && !haskey(r.hosts, hostID)
 //@   ensures map_unchanged_except(r.hosts, hostID)
@@ -1560,17 +1566,17 @@ package gocql
 //@ func (recv HostSelectionPolicy) RemoveHost
 //@   interface
 //@   trusted policies keep their own host lists; they do not write session, ring or pool state
-//@   preserves_types Session ring policyConnPool HostInfo ClusterConfig refreshDebouncer
+//@   preserves_types Session ring policyConnPool HostInfo ClusterConfig refreshDebouncer ringDescriber
 
 //@ func (recv HostSelectionPolicy) AddHost
 //@   interface
 //@   trusted policies keep their own host lists; they do not write session, ring or pool state
-//@   preserves_types Session ring policyConnPool HostInfo ClusterConfig refreshDebouncer
+//@   preserves_types Session ring policyConnPool HostInfo ClusterConfig refreshDebouncer ringDescriber
 
 //@ func (recv HostSelectionPolicy) HostDown
 //@   interface
 //@   trusted policies keep their own host lists; they do not write session, ring or pool state
-//@   preserves_types Session ring policyConnPool HostInfo ClusterConfig refreshDebouncer
+//@   preserves_types Session ring policyConnPool HostInfo ClusterConfig refreshDebouncer ringDescriber
 
 //@ func (recv HostFilter) Accept
 //@   interface
@@ -1594,13 +1600,14 @@ package gocql
 
 //@ func (s *Session) removeHost
 //@   props C16
-//@   preserves_types HostInfo ClusterConfig
+//@   preserves_types HostInfo ClusterConfig ringDescriber
 //@   count_calls HostSelectionPolicy.RemoveHost policyConnPool.removeHost ring.removeHost
 //@   requires h != nil && s.policy != nil && s.pool != nil
 //@   requires ring_wf(s.ring) && pool_wf(s.pool)
 //@   ensures ring_wf(s.ring) && pool_wf(s.pool)
 //@   ensures s.policy == old(s.policy) && s.pool == old(s.pool) && s.cfg.HostFilter == old(s.cfg.HostFilter)
 //@   ensures map_unchanged_except(s.ring.hosts, h.hostId)
+//@   ensures same(s.ring.hostList, old(s.ring.hostList)) || fresh(s.ring.hostList)
 //@   ensures smt("bool", "(and (not (= $1 $2)) (not (= $1 $3)))", s.pool.hostConnPools, s.ring.hosts, s.ring.hostIPToUUID)
 // maps of different Go types are different objects
 //@   requires smt("bool", "(and (not (= $1 $2)) (not (= $1 $3)))", s.pool.hostConnPools, s.ring.hosts, s.ring.hostIPToUUID)
@@ -1624,7 +1631,7 @@ package gocql
 
 //@ func (p *policyConnPool) addHost
 //@   trusted creates the host's pool if missing and starts filling it (goroutines, dialing)
-//@   preserves_types Session ring HostInfo ClusterConfig
+//@   preserves_types Session ring HostInfo ClusterConfig ringDescriber
 //@   ensures pool_wf(p)
 
 // DOWN for a known address: the node is marked down and, unless filtered, taken out of the policy
@@ -1648,7 +1655,7 @@ package gocql
 
 //@ func (s *Session) startPoolFill
 //@   props C16
-//@   preserves_types HostInfo ClusterConfig
+//@   preserves_types HostInfo ClusterConfig ringDescriber
 //@   ensures s.policy == old(s.policy) && s.pool == old(s.pool) && s.cfg.HostFilter == old(s.cfg.HostFilter) && s.cfg.Events.DisableNodeStatusEvents == old(s.cfg.Events.DisableNodeStatusEvents)
 //@   count_calls policyConnPool.addHost HostSelectionPolicy.AddHost
 //@   requires s.policy != nil && s.pool != nil && host != nil
@@ -1682,7 +1689,7 @@ package gocql
 //@ func (recv HostSelectionPolicy) HostUp
 //@   interface
 //@   trusted policies keep their own host lists; they do not write session, ring or pool state
-//@   preserves_types Session ring policyConnPool HostInfo ClusterConfig refreshDebouncer
+//@   preserves_types Session ring policyConnPool HostInfo ClusterConfig refreshDebouncer ringDescriber
 
 // a connected node is marked up and, unless filtered, reported to the policy
 //@ func (s *Session) handleNodeConnected
@@ -1740,7 +1747,7 @@ package gocql
 //@ func (recv HostSelectionPolicy) SetPartitioner
 //@   interface
 //@   trusted policies keep their own state; they do not write session, ring or pool state
-//@   preserves_types Session ring policyConnPool HostInfo ClusterConfig refreshDebouncer
+//@   preserves_types Session ring policyConnPool HostInfo ClusterConfig refreshDebouncer ringDescriber
 
 // refreshRing: every reported, accepted node is looked up / added by id; a node new to the ring is
 // connected to and handed to the policy; a known node whose address changed is removed (policy,
@@ -1760,10 +1767,12 @@ package gocql
 //@   before[@loop0] Session.removeHost: arg1 == existing
 //@   loop 0: invariant -1 <= rangeindex && rangeindex < len(hosts) && prevHosts != nil && r.session != nil && r.session.policy != nil && r.session.pool != nil
 //@   loop 0: invariant ring_wf(r.session.ring) && pool_wf(r.session.pool)
+//@   loop 0: invariant base(hosts) != base(r.session.ring.hostList)
 //@   loop 0: invariant smt("bool", "(and (not (= $1 $2)) (not (= $1 $3)))", r.session.pool.hostConnPools, r.session.ring.hosts, r.session.ring.hostIPToUUID)
 //@   loop 0: invariant forall(string(id), haskey(prevHosts, id) ==> prevHosts[id] != nil)
 //@   loop 1: invariant prevHosts != nil && r.session != nil && r.session.policy != nil && r.session.pool != nil
 //@   loop 1: invariant ring_wf(r.session.ring) && pool_wf(r.session.pool)
+//@   loop 1: invariant base(hosts) != base(r.session.ring.hostList)
 //@   loop 1: invariant smt("bool", "(and (not (= $1 $2)) (not (= $1 $3)))", r.session.pool.hostConnPools, r.session.ring.hosts, r.session.ring.hostIPToUUID)
 //@   loop 1: invariant forall(string(id), haskey(prevHosts, id) ==> prevHosts[id] != nil)
 //@   loop 0: invariant forall(k, 0 <= k && k < len(hosts), hosts[k] != nil && validhost(hosts[k]))
